@@ -63,12 +63,14 @@ def plan_c01(tier, seed):
 PLANS = {"C01": plan_c01}
 
 
-def field_harnesses(L, f, prop, oob=True, get=True, sett=True):
+def field_harnesses(L, f, prop, oob=True, get=True, sett=True, twice=False):
     hs = []
     if get and f.readable:
         hs.append(H.h_get(L, f, prop))
     if sett and f.writable:
         hs.append(H.h_set(L, f, prop))
+        if twice:
+            hs.append(H.h_set2(L, f, prop))
     if oob and f.array:
         if f.readable:
             hs.append(H.h_oob(L, f, prop, "get"))
@@ -141,12 +143,31 @@ def c02_extra_layouts(tier):
             Ls.append(Layout(W, [Field("f", T_int(16), [(W - 17, 8), (3, 8)], None, "rw")], tag=f"i16 list on u{W}"))
             Ls.append(Layout(W, [Field("f", T_int(32), [(0, 31), (W - 2, 1)], None, "rw")], tag=f"i32 with its sign bit stored apart on u{W}"))
         Ls.append(Layout(W, [Field("a", T_int(8), [(4, 4), (0, 4)], (W // 8 if W % 8 == 0 else W // 8, 8, True), "rw")], tag=f"array of i8 lists on u{W}"))
+        # entries that directly continue the previous one (upwards and downwards), followed by a further entry
+        Ls.append(Layout(W, [Field("f", T_uint(10), [(0, 3), (3, 3), (W - 4, 4)], None, "rw")], tag=f"list with adjacent entries then a far one on u{W}"))
+        Ls.append(Layout(W, [Field("f", T_uint(10), [(W - 4, 4), (3, 3), (6, 3)], None, "rw")], tag=f"list far entry first then adjacent entries on u{W}"))
+        Ls.append(Layout(W, [Field("f", T_uint(9), [(6, 3), (3, 3), (0, 3)], None, "rw")], tag=f"list with descending adjacent entries on u{W}"))
+        Ls.append(Layout(W, [Field("f", T_uint(6), [(2, 1), (3, 1), (4, 1), (8, 3)], None, "rw")], tag=f"single bits continuing each other then a range on u{W}"))
+        if not is_native(W):
+            # arbitrary-int base: a list whose NON-last item ends on the top bit
+            Ls.append(Layout(W, [Field("f", T_uint(W), [(W - 8, 8), (8, W - 16), (0, 8)], None, "rw")], tag=f"full-width byte-swapped-ends list on u{W}"))
+            Ls.append(Layout(W, [Field("f", T_uint(5), [(W - 2, 2), (1, 3)], None, "rw")], tag=f"list whose first item ends at the top bit of u{W}"))
     return Ls
 
 
 def plan_c02(tier, seed):
-    Ls = c02_layouts(tier, seed) + c02_extra_layouts(tier)
+    Ls = c02_layouts(tier, seed)
+    nplain = len(Ls)
+    Ls = Ls + c02_extra_layouts(tier)
     us = units_from(Ls, lambda L: [H.h_set(L, f, "C02") for f in L.fields])
+    # a second write to the same field must win completely: on the list/array extras and on a slice
+    # of the plain corpus (every 5th layout, first field)
+    for k, u in enumerate(us):
+        L = u.meta["layout"]
+        if k >= nplain:
+            u.harnesses += [H.h_set2(L, f, "C02") for f in L.fields]
+        elif k % 5 == 0:
+            u.harnesses.append(H.h_set2(L, L.fields[0], "C02"))
     add_controls(us, "C02", kinds=("set", "set", "set"))
     return Plan(us, title="setter == reference scatter", chunk=200 if tier == "quick" else 600,
                 bounds={"inputs": "all raw values x all field values per layout (symbolic)", "forms": "with_ and set_", "layouts": "this run's corpus (see harness_families / layouts_generated)"},
@@ -221,6 +242,22 @@ def c03_layouts(tier, seed):
                               (8, T_uint(2), [(1, 1), (5, 1)], (3, 1, True)), (65, T_uint(5), [(30, 3), (1, 2)], (4, 8, True))]:
         Ls.append(Layout(W, [Field("a", ty, rs, arr, "rw")], tag=f"array of range lists, first range at bit {rs[0][0]}, on u{W}"))
         Ls.append(Layout(W, [Field("a", ty, list(reversed(rs)), arr, "rw")], tag=f"array of range lists (reversed), first range at bit {rs[-1][0]}, on u{W}"))
+    # dense arrays of native-width elements that do NOT start on a multiple of their width
+    for W in (32, 64, 128, 24, 65, 100):
+        for w in (8, 16, 32, 64):
+            for lo in (4, 3, w // 2 + 1):
+                K = min((W - lo) // w, 4)
+                if K >= 2:
+                    for ty in (T_uint(w), T_int(w)):
+                        Ls.append(mk(W, (lo, w, w, K), ty, tag=f"dense [{ty.decl_ty()}; {K}] starting at unaligned bit {lo} of u{W}"))
+    # the same attribute written with its arguments in other orders
+    for order in ("sra", "asr", "rsa", "ars", "sar"):
+        for (W, shape, ty) in ((32, (0, 4, 8, 4), T_uint(4)), (16, (1, 1, 3, 5), T_bool()), (64, (4, 8, 16, 3), T_int(8)), (24, (2, 3, 5, 4), T_uint(3))):
+            L = mk(W, shape, ty, explicit=True, tag=f"array with attribute arguments in order '{order}' on u{W}")
+            L.fields[0].arg_order = order
+            Ls.append(L)
+        L = Layout(32, [Field("a", T_uint(2), [(1, 1), (9, 1)], (3, 2, True), "rw", arg_order=order)], tag=f"array of lists with attribute arguments in order '{order}'")
+        Ls.append(L)
     if tier != "quick":
         for W in (32, 64, 128):
             sh = array_shapes(W, max_w=W // 2, max_K=16)
@@ -297,9 +334,32 @@ def c04_layouts(tier, seed):
     return Ls
 
 
+def c04_straddle_layouts():
+    """list fields narrower than the base with a piece that straddles bit 8/16/32/64 of the base
+    (the storage width of the field's own type), and pieces ending exactly on the top bit"""
+    Ls = []
+    for (W, w, S) in ((32, 12, 16), (64, 12, 16), (64, 20, 32), (128, 20, 32), (128, 40, 64), (32, 5, 8), (128, 100, 64), (24, 12, 16), (100, 40, 64), (65, 20, 32)):
+        a = min(8, w - 2)
+        lo = S - a // 2
+        if lo + a > W:
+            continue
+        rest = w - a
+        if rest > lo and lo + a + rest > W:
+            continue
+        Ls.append(Layout(W, [Field("f", T_uint(w), [(lo, a), (0, rest)] if rest <= lo else [(lo, a), (lo + a, rest)], None, "rw")], tag=f"u{w} list with a piece straddling bit {S} of u{W} (first)"))
+        if rest <= lo:
+            Ls.append(Layout(W, [Field("f", T_uint(w), [(0, rest), (lo, a)], None, "rw")], tag=f"u{w} list with a piece straddling bit {S} of u{W} (last)"))
+    for W in (7, 14, 24, 48, 100, 127, 16, 64):
+        if W >= 12:
+            Ls.append(Layout(W, [Field("f", T_uint(W if W != 16 and W != 64 else W), [(W - 4, 4), (4, W - 8), (0, 4)], None, "rw")], tag=f"full-width list, first piece ends on the top bit of u{W}"))
+        Ls.append(Layout(W, [Field("f", T_uint(3), [(W - 2, 2), (0, 1)], None, "rw")], tag=f"u3 list whose first piece ends on the top bit of u{W}"))
+        Ls.append(Layout(W, [Field("f", T_uint(3), [(0, 1), (W - 2, 2)], None, "rw")], tag=f"u3 list whose last piece ends on the top bit of u{W}"))
+    return Ls
+
+
 def plan_c04(tier, seed):
-    Ls = c04_layouts(tier, seed)
-    us = units_from(Ls, lambda L: sum([field_harnesses(L, f, "C04") for f in L.fields], []))
+    Ls = c04_layouts(tier, seed) + c04_straddle_layouts()
+    us = units_from(Ls, lambda L: sum([field_harnesses(L, f, "C04", twice=True) for f in L.fields], []))
     add_controls(us, "C04", kinds=("get", "set", "get"))
     return Plan(us, title="non-contiguous gather/scatter", chunk=220 if tier == "quick" else 600,
                 bounds={"inputs": "all raw values x all field values x all indices per layout", "lists": "2..8 pairwise-disjoint items, any order; arrays of lists with K <= 10", "layouts": "documented shapes on every base where they fit + seeded random lists + arrays of lists"},
@@ -328,6 +388,8 @@ def c05_layouts(tier, seed):
                 s = N + 1
                 K = (W - N) // s + 1
                 Ls.append(Layout(W, [Field("a", T_int(N), [(W - ((K - 1) * s + N), N)], (K, s, True), "rw")], tag=f"i{N} array stride {s} (gaps) on u{W}"))
+            if W >= 2 * N + 3:
+                Ls.append(Layout(W, [Field("a", T_int(N), [(3, N)], (2, N, False), "rw")], tag=f"i{N} dense array starting at bit 3 on u{W}"))
             if W >= N + 2:
                 h = N // 2
                 Ls.append(Layout(W, [Field("f", T_int(N), [(0, h), (W - h, h)], None, "rw")], tag=f"i{N} two-range list low,high on u{W}"))
@@ -360,7 +422,7 @@ def h_signed_extra(L, f):
 
 def plan_c05(tier, seed):
     Ls = c05_layouts(tier, seed)
-    us = units_from(Ls, lambda L: sum([[H.h_get(L, f, "C05"), H.h_set(L, f, "C05"), h_signed_extra(L, f)] for f in L.fields], []))
+    us = units_from(Ls, lambda L: sum([[H.h_get(L, f, "C05"), H.h_set(L, f, "C05"), h_signed_extra(L, f)] + ([H.h_set2(L, f, "C05")] if (len(f.ranges) > 1 or f.array) else []) for f in L.fields], []))
     add_controls(us, "C05", kinds=("get", "set", "set"))
     return Plan(us, title="signed fields", chunk=220 if tier == "quick" else 600,
                 bounds={"inputs": "all raw values x all iN values (negative included) x all indices", "layouts": "N in {8,16,32,64,128} x bases >= N x {plain (several lo), array default/explicit stride, two-range lists both orders, array of lists}"},
@@ -442,6 +504,22 @@ def h_c06_ctl(L):
     return h
 
 
+def c06_optional_layouts(tier):
+    """declarations that may legitimately be rejected (and are today); if a tree accepts them, the
+    same constants clauses apply: a declared default is what DEFAULT / Default::default() / new() carry"""
+    Ls = []
+    for N in (8, 32, 128, 14, 24, 65):
+        L = Layout(N, [Field("f0", ty_for_width(max(1, N // 2)), [(0, max(1, N // 2))], None, "rw")], default=("lit", (1 << (N - 1)) | 0x23, "hex"), tag=f"u{N}: default declared AND #[derive(Default)] on the struct")
+        L.derives = "Default"
+        Ls.append(L)
+    for N in (7, 14, 24, 33, 65, 100):
+        st = storage_bits(N)
+        for (form, v) in (("lit", (1 << N) | 0x5), ("const", (1 << (st - 1)) | 0x12), ("lit", mask(st))):
+            L = Layout(N, [Field("f0", T_bool(), [(0, 1)], None, "rw")], default=(form, v, "hex") if form == "lit" else (form, v), tag=f"u{N}: default {v:#x} does not fit the base (fits the u{st} storage)")
+            Ls.append(L)
+    return Ls
+
+
 def plan_c06(tier, seed):
     Ls = c06_layouts(tier, seed)
     us = []
@@ -449,7 +527,13 @@ def plan_c06(tier, seed):
         u = Unit(f"l{i:05d}", L.decl(), [h_c06(L)], {"layout": L, "sig": L.sig(), "tag": L.tag, "valid": True})
         u.decl = L.decl() + "\n" + C06_PRE
         us.append(u)
-    for k in (0, len(us) // 2, len(us) - 1):
+    nv = len(us)
+    for i, L in enumerate(c06_optional_layouts(tier)):
+        h = h_c06(L)
+        h.role = "optional-declaration"
+        u = Unit(f"o{i:05d}", L.decl() + "\n" + C06_PRE, [h], {"layout": L, "sig": L.sig(), "tag": L.tag, "valid": False, "role": "optional-declaration"})
+        us.append(u)
+    for k in (0, nv // 2, nv - 1):
         us[k].harnesses.append(h_c06_ctl(us[k].meta["layout"]))
     return Plan(us, title="raw round trip, constants, layout", chunk=120,
                 bounds={"inputs": "all 2^N raw values per base", "bases": "5 native + %d arbitrary-int widths" % (len(QUICK_ARB) if tier == "quick" else len(ALL_ARB)),
@@ -522,6 +606,11 @@ def enum_corpus(tier, seed):
     add(1, [0, 1], exhaustive="conditional", cfg=[None, None], tag="conditional without any cfg")
     add(8, [0, 255, 7], exhaustive="conditional", cfg=["on", "off", None], tag="conditional native storage")
     add(3, [5], exhaustive="conditional", cfg=[None], tag="conditional single")
+    add(2, [0, 1, 1, 2, 3], exhaustive="conditional", cfg=[None, "off", "on", None, None], tag="conditional, same discriminant twice: FIRST alternative gated off, second active")
+    add(3, [7, 7, 0, 3, 3, 3], exhaustive="conditional", cfg=["off", "on", None, "off", "off", "on"], tag="conditional, alternatives with equal discriminants, the active one declared last")
+    add(2, [0, 1, 2, 3], exhaustive="conditional", cfg=[None, "off_doc", None, "on_doc"], tag="conditional, cfg attributes preceded by doc comments")
+    add(1, [0, 1], exhaustive="conditional", cfg=["on_doc", "off_doc"], tag="conditional u1 with documented cfg variants, one inactive")
+    add(8, [1, 1, 200], exhaustive="conditional", cfg=["off_doc", "on", None], tag="conditional native storage, first alternative (documented) off")
     return Es
 
 
@@ -776,8 +865,21 @@ def h_commute(L):
     return hs
 
 
-def c12_layouts(tier, seed):
+def c12_directed_layouts():
     Ls = []
+    for (W, order) in ((32, "ras"), (64, "sra"), (24, "asr"), (128, "rsa")):
+        fs = [Field("odd", T_uint(4), [(1, 1), (3, 1), (5, 1), (7, 1)], (W // 8 if W // 8 <= 4 else 4, 8, True), "rw", arg_order=order),
+              Field("even", T_uint(4), [(6, 1), (4, 1), (2, 1), (0, 1)], (W // 8 if W // 8 <= 4 else 4, 8, True), "rw", arg_order=order),
+              Field("low", T_uint(4), [(0, 4)], (2, 8, True), "rw", arg_order=order),
+              Field("high", T_uint(4), [(4, 4)], (2, 8, True), "rw", arg_order=order),
+              Field("bytes", T_uint(8), [(0, 8)], (2, 8, False), "rw"),
+              Field("top", T_bool(), [(W - 1, 1)], None, "rw")]
+        Ls.append(Layout(W, fs, tag=f"overlapping views: arrays of range lists (first range not at bit 0), strided nibbles, bytes; attribute argument order '{order}' on u{W}"))
+    return Ls
+
+
+def c12_layouts(tier, seed):
+    Ls = c12_directed_layouts()
     srnd = random.Random(1212)
     rnd = random.Random(seed * 15485863 + 12)
     n = 36 if tier == "quick" else 360
@@ -966,6 +1068,12 @@ def c11_register_layouts(N, tier, rnd):
         lo = N - K * w
         fs = [Field("a", ty_for_width(w), [(lo, w)], (K, w, False), "rw"), Field("l", T_uint(2), [(N - 1, 1), (0, 1)], None, "rw")]
         Ls.append(Layout(N, fs, tag=f"u{N}: array filling exactly to bit {N - 1} + list touching bit {N - 1}"))
+    if N >= 9:
+        K = 3
+        s_ = (N - 3) // K
+        if s_ >= 3:
+            fs = [Field("al", T_uint(2), [(N - (K - 1) * s_ - 3, 1), (N - (K - 1) * s_ - 1, 1)], (K, s_, True), "rw")]
+            Ls.append(Layout(N, fs, default=("lit", top, "hex"), tag=f"u{N}: array of range lists whose last element ends at bit {N - 1}"))
     for w in NATIVE:
         if w < N:
             fs = [Field("hi", T_uint(w), [(N - w, w)], None, "rw"), Field("s", T_int(w), [(N - w, w)], None, "rw"), Field("lo", ty_for_width(N - w), [(0, N - w)], None, "rw")]
@@ -1056,6 +1164,9 @@ def plan_c11(tier, seed):
             for f in L.fields:
                 if f.writable:
                     hs.append(h_c11_step(L, f))
+                    if f.array:
+                        # an out-of-range index must not be a way to reach the hidden storage bits
+                        hs += [H.h_oob(L, f, "C11", "with"), H.h_oob(L, f, "C11", "set")]
             if L.builder_expected():
                 hs.append(h_c11_builder(L))
             pre = f"pub type VStorage = u{L.storage};\n" + VRES
@@ -1077,6 +1188,10 @@ def plan_c11(tier, seed):
             cand.append(Layout(N, [Field("f", T_uint(3), [(0, 1), (N - 1, 1), (N + 1, 1)], None, "rw")], tag=f"list with a single-bit item above bit {N - 1} of u{N}"))
             cand.append(Layout(N, [Field("f", T_uint(2), [(0, 1), (2, 1)], (2, N - 2, True), "rw")], tag=f"array of lists with gaps reaching bit {N} of u{N}"))
             cand.append(Layout(N, [Field("f", T_uint(2), [(N - 3, 2)], (2, 2, False), "rw")], tag=f"[u2;2] ending at bit {N} of u{N}"))
+    for N in ([7, 14, 24, 33, 65] if tier == "quick" else [n for n in ALL_ARB if n >= 3][::6]):
+        st = storage_bits(N)
+        cand.append(Layout(N, [Field("lo", T_uint(2), [(0, 2)], None, "rw"), Field("t", T_bool(), [(N - 1, 1)], None, "rw")], default=("const", (1 << (st - 1)) | (1 << N) | 1), tag=f"u{N}: named-constant default with bits above bit {N - 1} (inside the u{st} storage)"))
+        cand.append(Layout(N, [Field("lo", T_uint(2), [(0, 2)], None, "rw")], default=("lit", mask(st), "hex"), tag=f"u{N}: literal default filling the whole u{st} storage"))
     for L in cand:
         assert not L.rule_valid(), L.tag
         hs = [h_c11_base(L)] + [h_c11_step(L, f) for f in L.fields if f.writable]
@@ -1658,6 +1773,10 @@ def c10_candidates(tier, seed):
             add(N, full, "true", "cfg-without-conditional", f"u{N}: full set, one variant cfg'd ON, exhaustive=true", cfg=[None] * (n - 1) + ["on"])
             add(N, full[:-1], None, "cfg-without-conditional", f"u{N}: cfg'd variant, exhaustive omitted", cfg=["on"] + [None] * (n - 2))
             add(N, full, "conditional", "conditional", f"u{N}: conditional with one variant OFF", cfg=[None] * (n - 1) + ["off"])
+            add(N, full, "true", "cfg-without-conditional", f"u{N}: full set, one DOCUMENTED variant cfg'd OFF (doc comment before #[cfg]), exhaustive=true", cfg=[None] * (n - 1) + ["off_doc"])
+            add(N, full, "true", "cfg-without-conditional", f"u{N}: full set, first variant documented and cfg'd OFF, exhaustive=true", cfg=["off_doc"] + [None] * (n - 1))
+            add(N, full[:-1], "false", "cfg-without-conditional", f"u{N}: documented cfg'd variant, exhaustive=false", cfg=["on_doc"] + [None] * (n - 2))
+            add(N, full, "conditional", "conditional", f"u{N}: conditional with a documented variant OFF", cfg=[None] * (n - 1) + ["off_doc"])
     # storage-class boundaries up to 64
     for N in (9, 16, 17, 32, 33, 63, 64):
         top = (1 << N) - 1
@@ -1794,7 +1913,7 @@ def c19_layouts(tier, seed):
         """specs: list of (kind, lo, w)"""
         aux, fields = [], []
         for i, (kind, lo, w) in enumerate(specs):
-            name = ["alpha", "b", "c_long_name", "d", "e1", "f", "g", "h"][i]
+            name = ["ready", "b", "rx_count", "d", "rr", "f_long_name", "reserved", "h"][i]
             if kind == "bool":
                 ty = T_bool()
             elif kind == "uint":
